@@ -17,7 +17,7 @@ from mc.util import Ctx, affine
 
 PROPERTY = "C19"
 RULE = (
-    "explicit-state BFS over sequences of public entry points sharing one set of caller-owned inputs: 63 operations (k-means "
+    "explicit-state BFS over sequences of public entry points sharing one set of caller-owned inputs: 65 operations (k-means "
     "fit numpy/dask/max_iter=0, transform, predict, cluster variances; GMM ML/MAP fit numpy/dask, acc_stats, transform, "
     "log-likelihood; statistics + and +=; linear_scoring with machines / arrays / offsets; ISV and JFA fit from list / bag / "
     "array / dask array, enroll, enroll_using_array, score (single, list), score_using_array, estimate_x/ux, transform; "
@@ -48,6 +48,7 @@ def make_world(s, o):
     W.y = np.array([0, 1, 0, 1, 0, 1, 1, 0])
     W.ylist = [0, 1, 0, 1, 0, 1, 1, 0]
     W.init = np.array([[0.0, 0.0], [1.0, 1.0]]) * s + o
+    W.Xk = W.X[[0, 3]].copy()  # exactly as many samples as clusters
     W.yneg = np.array([-1, 0, -1, 0, -1, 0, 0, -1])  # class ids whose smallest value is not 0
     W.relw = np.array([0.5, 0.25])  # relative weights (not summing to one) handed to a machine
     W.relw2 = np.array([3.0, 1.0])
@@ -143,6 +144,8 @@ def _ops():
         return g.fit(W.X)
 
     O = {
+        "km_fit_n_equals_k": lambda W: km(W, max_iter=2).fit(W.Xk),
+        "km_fit_random_n_equals_k": lambda W: KMeansMachine(2, init_method="random", random_state=3, max_iter=2).fit(W.Xk),
         "gmm_given_ctor_fit": lambda W: gmm_given(W, "ctor").fit(W.X),
         "gmm_given_setter_fit": lambda W: gmm_given(W, "setter").fit(W.X),
         "gmm_given_setter_fit_dask": lambda W: gmm_given(W, "setter").fit(_da(W.X, (3, 2))),
